@@ -9,6 +9,7 @@ import (
 	"net/url"
 	"os"
 	"regexp"
+	"sort"
 	"strings"
 	"time"
 
@@ -300,6 +301,9 @@ func (s *sim) burstC(a Action) {
 	r := simkit.NewRNG(uint64(a.N), uint64(len(s.actions)))
 	var as []Action
 	var cs []*client
+	s.mu.Lock()
+	s.holdC = a.Which == "hold" // the answers are held back and let go one by one, in a seeded order
+	s.mu.Unlock()
 	for i := 0; i < a.N; i++ {
 		ai := Action{K: "get_c", Host: hostsPool[r.Intn(len(hostsPool))], SNI: sniPool[r.Intn(len(sniPool))]}
 		if r.Chance(1, 2) {
@@ -312,6 +316,20 @@ func (s *sim) burstC(a Action) {
 		as, cs = append(as, ai), append(cs, c)
 	}
 	s.settle()
+	s.mu.Lock()
+	s.holdC = false
+	parks := s.wparks
+	s.wparks = nil
+	s.mu.Unlock()
+	if len(parks) > 0 {
+		sort.Slice(parks, func(i, j int) bool { return parks[i].remote < parks[j].remote })
+		r.Shuffle(len(parks), func(i, j int) { parks[i], parks[j] = parks[j], parks[i] })
+		for _, p := range parks {
+			close(p.ch)
+			s.settle()
+		}
+		s.probes["script_answers_held"] += int64(len(parks))
+	}
 	for i := range cs {
 		s.getCJudge(as[i], cs[i])
 	}
